@@ -35,7 +35,9 @@ type Step struct {
 	Fill      uint64 `json:"fill,omitempty"`
 	Body      ev.Hex `json:"body,omitempty"` // explicit body (control types 4 and 5)
 	ChunkSize uint32 `json:"chunk_size,omitempty"`
-	Again     int    `json:"again,omitempty"` // msg only: 1 = the reader relays the message it received back to the writer; 2 = the writer sends the same Message object a second time
+	Again     int    `json:"again,omitempty"` // msg only: 1 = the reader relays the message it received back to the writer; 2 = the writer sends the same Message object a second time; 3 = ... after changing its timestamp and type to Ts2/Type2
+	Ts2       uint32 `json:"ts2,omitempty"`
+	Type2     uint8  `json:"type2,omitempty"`
 }
 
 type Case struct {
@@ -43,6 +45,24 @@ type Case struct {
 	SegKind [2]int   `json:"seg_kind"` // reader segmentation of endpoint A, B
 	Seg     [2][]int `json:"seg"`
 	Steps   []Step   `json:"steps"`
+	// Early: the client (A) sends its first message right behind C2, before the server has read C2 (only if step 0 is a message of A)
+	Early bool `json:"early,omitempty"`
+	// FinEOF: the transport reports io.EOF together with the last bytes of the session (the peer closed right after its last message)
+	FinEOF bool `json:"fin_eof,omitempty"`
+}
+
+// finReader reads a pipe; once *fin is set it reports io.EOF together with the last bytes.
+type finReader struct {
+	buf *bytes.Buffer
+	fin *bool
+}
+
+func (f finReader) Read(p []byte) (int, error) {
+	n, err := f.buf.Read(p)
+	if *f.fin && f.buf.Len() == 0 {
+		return n, io.EOF
+	}
+	return n, err
 }
 
 func (s Step) payload() []byte {
@@ -174,12 +194,24 @@ func genCase(t *rapid.T) Case {
 				s.Fill = rapid.Uint64().Draw(t, "fill")
 				budget -= s.Len
 				if rapid.IntRange(0, 4).Draw(t, "againk") == 0 {
-					s.Again = rapid.IntRange(1, 2).Draw(t, "again")
+					s.Again = rapid.IntRange(1, 3).Draw(t, "again")
 					budget -= s.Len
+					if s.Again == 3 {
+						s.Ts2, s.Type2 = genTs(t), rapid.SampledFrom([]uint8{8, 9, 18, 20, 22}).Draw(t, "type2")
+					}
 				}
 			}
 		}
 		c.Steps = append(c.Steps, s)
+	}
+	c.Early = rapid.IntRange(0, 2).Draw(t, "early") == 0
+	c.FinEOF = rapid.IntRange(0, 2).Draw(t, "fineof") == 0
+	if c.FinEOF && rapid.Bool().Draw(t, "bigfinal") {
+		// the session ends with a message in large chunks, read by an unsegmented reader
+		d := rapid.IntRange(0, 1).Draw(t, "findir")
+		c.SegKind[1-d] = 0
+		c.Steps = append(c.Steps, Step{Dir: d, Kind: "scs", ChunkSize: rapid.SampledFrom([]uint32{4097, 8192, 60000, 1 << 24}).Draw(t, "fincs")},
+			Step{Dir: d, Kind: "msg", Type: 9, Sid: 1, Ts: genTs(t), Len: rapid.SampledFrom([]int{4096, 4200, 8300, 10000, 70000}).Draw(t, "finlen"), Fill: rapid.Uint64().Draw(t, "finfill")})
 	}
 	return c
 }
@@ -219,14 +251,16 @@ type endpoint struct {
 
 type stats struct {
 	multiChunk, extTs, afterScs, splitHeader, relayed bool
-	msgs                                     int
+	early, finEOF, reheadered                         bool
+	msgs                                              int
 }
 
 func runCase(c Case) (st stats, err error) {
 	var pipe [2]bytes.Buffer // pipe[0]: A->B, pipe[1]: B->A
 	var log [2]bytes.Buffer
+	var fin [2]bool
 	mk := func(i int) io.ReadWriter {
-		var r io.Reader = &pipe[1-i]
+		var r io.Reader = finReader{&pipe[1-i], &fin[1-i]}
 		if c.SegKind[i] != 0 {
 			r = &xport.SegReader{R: r, Sched: xport.Sched(c.SegKind[i], c.Seg[i])}
 			st.splitHeader = true
@@ -236,16 +270,55 @@ func runCase(c Case) (st stats, err error) {
 	rws := [2]io.ReadWriter{mk(0), mk(1)}
 
 	// simple handshake, A is the client
-	if err = handshake(rws[0], rws[1], c.HsSeed); err != nil {
+	var eps [2]*rtmp.Protocol
+	var arenas [][2][]byte // application buffers the payloads were cut from, with their pristine copies
+	newMsg := func(s Step) *rtmp.Message {
+		m := rtmp.NewStreamMessage(int(s.Sid))
+		m.MessageType = rtmp.MessageType(s.Type)
+		m.Timestamp = uint64(s.Ts)
+		// the payload is a window into a larger buffer of the application
+		arena := append(s.payload(), "bytes behind the payload"...)
+		arenas = append(arenas, [2][]byte{arena, append([]byte(nil), arena...)})
+		m.Payload = arena[:len(arena)-len("bytes behind the payload")]
+		return m
+	}
+	var early *rtmp.Message
+	var earlyErr error
+	wroteHs := 0
+	if err = handshake(rws[0], rws[1], c.HsSeed, func() {
+		wroteHs = log[0].Len()
+		if c.Early && len(c.Steps) > 0 && c.Steps[0].Kind == "msg" && c.Steps[0].Dir == 0 {
+			eps[0] = rtmp.NewProtocol(rws[0])
+			early = newMsg(c.Steps[0])
+			earlyErr = eps[0].WriteMessage(early)
+		}
+	}); err != nil {
 		return st, fmt.Errorf("handshake: %v", err)
 	}
-	if pipe[0].Len() != 0 || pipe[1].Len() != 0 {
+	st.early = early != nil
+	if earlyErr != nil {
+		return st, fmt.Errorf("step 0: WriteMessage right behind C2: %v", earlyErr)
+	}
+	if early == nil && (pipe[0].Len() != 0 || pipe[1].Len() != 0) {
 		return st, fmt.Errorf("handshake left %d/%d unread bytes", pipe[0].Len(), pipe[1].Len())
 	}
+	// the logs keep the chunk streams only
+	rest := append([]byte(nil), log[0].Bytes()[wroteHs:]...)
 	log[0].Reset()
+	log[0].Write(rest)
 	log[1].Reset()
 
-	eps := [2]*rtmp.Protocol{rtmp.NewProtocol(rws[0]), rtmp.NewProtocol(rws[1])}
+	if eps[0] == nil {
+		eps[0] = rtmp.NewProtocol(rws[0])
+	}
+	eps[1] = rtmp.NewProtocol(rws[1])
+	// lastRead: the read after which nothing more is read in the session
+	finalRead := func(i int, last bool, dir int) {
+		if c.FinEOF && last && i == len(c.Steps)-1 {
+			fin[dir] = true
+			st.finEOF = true
+		}
+	}
 	out := [2]uint32{128, 128}
 	var sent [2][]rtmpref.Msg
 	scsSeen := [2]bool{}
@@ -298,15 +371,17 @@ func runCase(c Case) (st stats, err error) {
 			}
 			want = rtmpref.Msg{Type: s.Type, StreamID: s.Sid, Payload: body}
 		default:
-			m := rtmp.NewStreamMessage(int(s.Sid))
-			again = m
-			m.MessageType = rtmp.MessageType(s.Type)
-			m.Timestamp = uint64(s.Ts)
-			m.Payload = s.payload()
-			want = rtmpref.Msg{Type: s.Type, StreamID: s.Sid, Timestamp: s.Ts, Payload: append([]byte(nil), m.Payload...)}
-			if e := w.WriteMessage(m); e != nil {
-				return st, fmt.Errorf("step %d: WriteMessage: %v", i, e)
+			var m *rtmp.Message
+			if i == 0 && early != nil {
+				m = early // already written, right behind C2
+			} else {
+				m = newMsg(s)
+				if e := w.WriteMessage(m); e != nil {
+					return st, fmt.Errorf("step %d: WriteMessage: %v", i, e)
+				}
 			}
+			again = m
+			want = rtmpref.Msg{Type: s.Type, StreamID: s.Sid, Timestamp: s.Ts, Payload: append([]byte(nil), m.Payload...)}
 			if uint32(len(want.Payload)) > out[s.Dir] {
 				st.multiChunk = true
 			}
@@ -319,6 +394,7 @@ func runCase(c Case) (st stats, err error) {
 		}
 		sent[s.Dir] = append(sent[s.Dir], want)
 		st.msgs++
+		finalRead(i, !(s.Kind == "msg" && s.Again != 0), s.Dir)
 		got, e := r.ReadMessage()
 		if e != nil {
 			return st, fmt.Errorf("step %d (%s len=%d ts=%d, writer chunk size %d): ReadMessage: %v", i, s.Kind, len(want.Payload), want.Timestamp, out[s.Dir], e)
@@ -339,6 +415,7 @@ func runCase(c Case) (st stats, err error) {
 				return st, fmt.Errorf("step %d: relaying the received message: %v", i, e)
 			}
 			sent[1-s.Dir] = append(sent[1-s.Dir], want)
+			finalRead(i, true, 1-s.Dir)
 			back, e := w.ReadMessage()
 			if e != nil {
 				return st, fmt.Errorf("step %d: reading the relayed message (len=%d ts=%d, relay's chunk size %d): %v", i, len(want.Payload), want.Timestamp, out[1-s.Dir], e)
@@ -347,12 +424,18 @@ func runCase(c Case) (st stats, err error) {
 				return st, fmt.Errorf("step %d: relayed message: %v", i, e)
 			}
 			st.relayed = true
-		case s.Kind == "msg" && s.Again == 2 && again != nil:
-			// the application sends the same Message value once more
+		case s.Kind == "msg" && s.Again >= 2 && again != nil:
+			// the application sends the same Message value once more, possibly with a new timestamp and type
+			if s.Again == 3 {
+				st.reheadered = true
+				again.Timestamp, again.MessageType = uint64(s.Ts2), rtmp.MessageType(s.Type2)
+				want.Timestamp, want.Type = s.Ts2, s.Type2
+			}
 			if e := w.WriteMessage(again); e != nil {
 				return st, fmt.Errorf("step %d: second WriteMessage of the same Message: %v", i, e)
 			}
 			sent[s.Dir] = append(sent[s.Dir], want)
+			finalRead(i, true, s.Dir)
 			g2, e := r.ReadMessage()
 			if e != nil {
 				return st, fmt.Errorf("step %d: reading the message sent a second time: %v", i, e)
@@ -361,6 +444,11 @@ func runCase(c Case) (st stats, err error) {
 				return st, fmt.Errorf("step %d: message sent a second time: %v", i, e)
 			}
 			st.relayed = true
+		}
+	}
+	for _, a := range arenas {
+		if !bytes.Equal(a[0], a[1]) {
+			return st, fmt.Errorf("WriteMessage changed the application's buffer the payload was cut from")
 		}
 	}
 	// a message handed to the application stays what it was while later messages are read
@@ -389,7 +477,7 @@ func runCase(c Case) (st stats, err error) {
 	return st, nil
 }
 
-func handshake(a, b io.ReadWriter, seeds [2]int64) error {
+func handshake(a, b io.ReadWriter, seeds [2]int64, afterC2 func()) error {
 	ha := rtmp.NewHandshake(rand.New(rand.NewSource(seeds[0])))
 	hb := rtmp.NewHandshake(rand.New(rand.NewSource(seeds[1])))
 	if err := ha.WriteC0S0(a); err != nil {
@@ -445,6 +533,7 @@ func handshake(a, b io.ReadWriter, seeds [2]int64) error {
 	if err := ha.WriteC2S2(a, s1); err != nil {
 		return err
 	}
+	afterC2()
 	c2, err := hb.ReadC2S2(b)
 	if err != nil {
 		return err
@@ -459,9 +548,10 @@ func handshake(a, b io.ReadWriter, seeds [2]int64) error {
 
 var recSession = ev.New(prop, "session",
 	"rapid-generated sessions (handshake, then <=24 steps of WriteMessage / WritePacket(SetChunkSize) / WritePacket(control) in both directions, "+
-		"payload lengths relative to the writer's chunk size, boundary timestamps/stream ids/chunk sizes, reader segmentation whole/1-byte/drawn); "+
+		"payload lengths relative to the writer's chunk size, boundary timestamps/stream ids/chunk sizes, reader segmentation whole/1-byte/drawn; messages relayed, re-sent as the same object (optionally with a new timestamp/type), "+
+		"the client's first message optionally sent right behind C2, io.EOF optionally delivered with the last bytes of the session, payloads cut from larger application buffers); "+
 		"non-trivial = a message spanning >=2 chunks, or ts>=0xFFFFFF, or a message after a Set Chunk Size, or a segmented reader; distinct by hash of the case").
-	Require("multi-chunk", "ext-ts", "after-scs", "segmented", "relayed-or-resent")
+	Require("multi-chunk", "ext-ts", "after-scs", "segmented", "relayed-or-resent", "first-message-behind-c2", "eof-with-last-bytes", "resent-with-new-header")
 
 func check(c Case) error {
 	var st stats
@@ -485,6 +575,15 @@ func check(c Case) error {
 	}
 	if st.relayed {
 		cl = append(cl, "relayed-or-resent")
+	}
+	if st.early {
+		cl = append(cl, "first-message-behind-c2")
+	}
+	if st.finEOF {
+		cl = append(cl, "eof-with-last-bytes")
+	}
+	if st.reheadered {
+		cl = append(cl, "resent-with-new-header")
 	}
 	recSession.Case(len(cl) > 0, ev.Hash(c), cl, func() any { return c })
 	return err
